@@ -430,6 +430,7 @@ func (c *workceptorCommand) ControlFunc(ctx context.Context, nc controlsvc.Netce
 		if err != nil {
 			return nil, err
 		}
+		verifhook.Step("results.stream", unit.StatusFileName())
 		err = cfo.WriteToConn(fmt.Sprintf("Streaming results for work unit %s\n", unitid), resultChan)
 		if err != nil {
 			return nil, err
